@@ -63,6 +63,7 @@ type Term struct {
 	Bound []*Term
 	Pats  []*Term // quantifier patterns (alternatives)
 	id    int
+	h     uint64 // structural hash: independent of the order in which terms were created
 }
 
 var (
@@ -93,10 +94,54 @@ func mk(op, name string, s *Sort, iv *big.Int, bound []*Term, args ...*Term) *Te
 	if t, ok := termTab[k]; ok {
 		return t
 	}
-	t := &Term{Op: op, Name: name, Args: args, S: s, IV: iv, Bound: bound, id: termNext}
+	t := &Term{Op: op, Name: name, Args: args, S: s, IV: iv, Bound: bound, id: termNext, h: structHash(op, name, s, iv, bound, args)}
 	termNext++
 	termTab[k] = t
 	return t
+}
+
+// structHash: FNV-1a over the operator, name, sort, literal and the hashes of the
+// children. Used wherever an arbitrary but reproducible order of terms is needed
+// (the ids follow creation order, which depends on how the workers interleave).
+func structHash(op, name string, s *Sort, iv *big.Int, bound, args []*Term) uint64 {
+	h := uint64(14695981039346656037)
+	mixS := func(x string) {
+		for i := 0; i < len(x); i++ {
+			h ^= uint64(x[i])
+			h *= 1099511628211
+		}
+		h ^= 0xff
+		h *= 1099511628211
+	}
+	mixU := func(x uint64) {
+		for i := 0; i < 8; i++ {
+			h ^= x & 0xff
+			h *= 1099511628211
+			x >>= 8
+		}
+	}
+	mixS(op)
+	mixS(name)
+	mixS(s.str)
+	if iv != nil {
+		mixS(iv.String())
+	}
+	for _, b := range bound {
+		mixU(b.h)
+	}
+	mixU(uint64(len(args)))
+	for _, a := range args {
+		mixU(a.h)
+	}
+	return h
+}
+
+// termBefore: reproducible total order (hash, then id to break the rare tie).
+func termBefore(a, b *Term) bool {
+	if a.h != b.h {
+		return a.h < b.h
+	}
+	return a.id < b.id
 }
 
 var (
@@ -242,7 +287,7 @@ func Eq(a, b *Term) *Term {
 			return Not(a)
 		}
 	}
-	if a.id > b.id {
+	if termBefore(b, a) {
 		a, b = b, a
 	}
 	return mk("=", "", SBool, nil, nil, a, b)
